@@ -1,5 +1,7 @@
 pub mod basic;
 pub mod c10;
+pub mod c11;
+pub mod c12;
 pub mod c13;
 pub mod chain;
 pub mod presented;
@@ -16,6 +18,8 @@ pub struct Arm {
     pub c08: bool,
     pub c09: bool,
     pub c10: bool,
+    pub c11: bool,
+    pub c12: bool,
     pub c13: bool,
     pub c19: bool,
 }
@@ -28,6 +32,8 @@ impl Arm {
             "C08" => a.c08 = true,
             "C09" => a.c09 = true,
             "C10" => a.c10 = true,
+            "C11" => a.c11 = true,
+            "C12" => a.c12 = true,
             "C13" => a.c13 = true,
             "C19" => a.c19 = true,
             _ => {}
@@ -44,6 +50,8 @@ pub struct Watch {
     pub c08: basic::C08,
     pub c09: basic::C09,
     pub c10: c10::C10,
+    pub c11: c11::C11,
+    pub c12: c12::C12,
     pub c13: c13::C13,
     pub c19: basic::C19,
     /// a monitor other than the armed ones disagreed: its shadow can no longer be trusted
@@ -59,6 +67,8 @@ impl Watch {
             c08: Default::default(),
             c09: Default::default(),
             c10: Default::default(),
+            c11: Default::default(),
+            c12: c12::C12::new(),
             c13: c13::C13::new(timers_in_order),
             c19: Default::default(),
             shadow_broken: false,
@@ -118,18 +128,21 @@ impl Watch {
         } else {
             None
         };
-        if self.arm.c07 {
-            let v = self.c07.on(rec, &ch, acc);
-            self.gate(true, v)?;
+        // every shadow runs on every call (some monitors depend on others'
+        // shadows); only the armed monitors' verdicts count
+        let mut scratch = Acc::default();
+        macro_rules! run {
+            ($armed:expr, $call:expr) => {{
+                let armed = $armed;
+                let v = if armed { let acc = &mut *acc; $call(acc) } else { let acc = &mut scratch; $call(acc) };
+                self.gate(armed, v)?;
+            }};
         }
-        let v = self.c08.on(rec, fo.as_ref(), acc);
-        let a = self.arm.c08;
-        self.gate(a, v)?;
+        let epoch_pre = self.c13.epoch;
+        run!(self.arm.c07, |a: &mut Acc| self.c07.on(rec, &ch, a));
+        run!(self.arm.c08, |a: &mut Acc| self.c08.on(rec, fo.as_ref(), a));
         let conn_post = self.c08.conn;
-        if self.arm.c09 {
-            let v = self.c09.on(rec, &pres, codec, acc);
-            self.gate(true, v)?;
-        }
+        run!(self.arm.c09, |a: &mut Acc| self.c09.on(rec, &pres, codec, a));
         if self.arm.c10 {
             let v = self.c10.on(rec, &ch, &pres, fo.as_ref(), conn_pre, codec, acc);
             self.gate(true, v)?;
@@ -137,14 +150,10 @@ impl Watch {
             // keep the incarnation shadow in step for start_inc()
             self.c10.inc = rec.post.snap.incarnation;
         }
-        if self.arm.c13 {
-            let v = self.c13.on(rec, conn_pre, conn_post, acc);
-            self.gate(true, v)?;
-        }
-        if self.arm.c19 {
-            let v = self.c19.on(rec, &ch, codec, acc);
-            self.gate(true, v)?;
-        }
+        run!(self.arm.c13, |a: &mut Acc| self.c13.on(rec, conn_pre, conn_post, a));
+        run!(self.arm.c11, |a: &mut Acc| self.c11.on(rec, epoch_pre, codec, a));
+        run!(self.arm.c12, |a: &mut Acc| self.c12.on(rec, &pres, conn_pre, conn_post, epoch_pre, codec, a));
+        run!(self.arm.c19, |a: &mut Acc| self.c19.on(rec, &ch, codec, a));
         Ok(())
     }
 }
